@@ -148,6 +148,38 @@ func c07Events() []c07Event {
 			var d string
 			c07Collect(c, z.String().Min(5, z.Message("custom-message")).Catch("c").Parse("ab", &d), nil)
 		}},
+		{"nested struct whose field test panics (the caller recovers)", func(c int) {
+			var d c07S3
+			sc := z.Struct(z.Schema{"a": z.Struct(z.Schema{"b": z.Struct(z.Schema{"c": z.String().TestFunc(func(v any, ctx z.Ctx) bool { panic("user test panics") })})})})
+			func() {
+				defer func() { recover() }()
+				sc.Parse(map[string]any{"a": map[string]any{"b": map[string]any{"c": "x"}}}, &d)
+			}()
+		}},
+		{"slice element PostTransform panics during Validate (the caller recovers)", func(c int) {
+			d := []string{"ok", "boom"}
+			sc := z.Slice(z.String().PostTransform(func(p any, ctx z.Ctx) error {
+				if *(p.(*string)) == "boom" {
+					panic("user transform panics")
+				}
+				return nil
+			}))
+			func() {
+				defer func() { recover() }()
+				sc.Validate(&d)
+			}()
+		}},
+		{"Struct{tags: Slice, name: String.Min(5)}.Parse({tags: [], name: x}) [present empty list]", func(c int) {
+			var d struct {
+				Tags []string
+				Name string
+			}
+			c07Collect(c, nil, z.Struct(z.Schema{"tags": z.Slice(z.String()), "name": z.String().Min(5)}).Parse(map[string]any{"tags": []any{}, "name": "x"}, &d))
+		}},
+		{"Slice(Slice(String.Min(3))).Parse([[], [x]]) [empty list before a failing one]", func(c int) {
+			var d [][]string
+			c07Collect(c, nil, z.Slice(z.Slice(z.String().Min(3))).Parse([]any{[]any{}, []any{"x"}}, &d))
+		}},
 		{"Struct.TestFunc(fail, IssuePath(custom)).Parse", func(c int) {
 			var d c07Sib
 			c07Collect(c, nil, z.Struct(z.Schema{"a": z.String()}).TestFunc(func(v any, ctx z.Ctx) bool { return false }, z.IssuePath("custom.path"), z.Message("m")).Parse(map[string]any{"a": "x"}, &d))
@@ -275,7 +307,10 @@ func c07RunHistory(x *mc.X, maxEvents int) (hist []string, n int, capped bool) {
 			return hist, n, false
 		}
 		e := x.Choose(len(events), "event")
-		c := x.Choose(3, "collect")
+		c := x.Choose(2, "collect")
+		if c == 1 && e%2 == 1 {
+			c = 2 // odd events hand their issues back through Sanitize*AndCollect, even ones through Collect*
+		}
 		hist = append(hist, fmt.Sprintf("%s collect=%d", events[e].name, c))
 		func() {
 			defer func() {
@@ -335,6 +370,7 @@ type c07Proto struct {
 
 type c07Search struct {
 	states   [][]int // representative history (choice prefix) of every distinct BFS state
+	depthOf  []int
 	trans    int64
 	levels   []int
 	protos   []c07Proto
@@ -434,6 +470,7 @@ func c07GetSearch(tier string) *c07Search {
 	zh.Reset()
 	seen[c07StateKey()] = true
 	s.states = append(s.states, nil)
+	s.depthOf = append(s.depthOf, 0)
 	s.levels = []int{1}
 	level := [][]int{nil}
 	for d := 0; d < depth; d++ {
@@ -452,6 +489,7 @@ func c07GetSearch(tier string) *c07Search {
 						ch := x.Choices()
 						next = append(next, ch)
 						s.states = append(s.states, ch)
+						s.depthOf = append(s.depthOf, d+1)
 						s.harvest(classSeen)
 					}
 				}
@@ -622,7 +660,10 @@ func c07RunHistoryUntil(x *mc.X, total int) (hist []string, n int, capped bool) 
 			return hist, n, false
 		}
 		e := x.Choose(len(events), "event")
-		c := x.Choose(3, "collect")
+		c := x.Choose(2, "collect")
+		if c == 1 && e%2 == 1 {
+			c = 2 // odd events hand their issues back through Sanitize*AndCollect, even ones through Collect*
+		}
 		hist = append(hist, fmt.Sprintf("%s collect=%d", events[e].name, c))
 		func() {
 			defer func() {
@@ -646,7 +687,11 @@ func c07DirectScenario(tier string, probe int, baseline []string) mc.Scenario {
 		si := x.Choose(len(s.states), "state")
 		zh.Reset()
 		hist := c07ReplayHistory(s.states[si])
-		zh.Install(x, zh.PoolDeviate, zh.OrderSorted)
+		if s.depthOf[si] >= 2 && tier != "thorough" {
+			zh.Install(x, zh.PoolLIFO, zh.OrderSorted) // deep states: the answers sync.Pool gives on one P; deviations are covered by the pre-filled pool phase
+		} else {
+			zh.Install(x, zh.PoolDeviate, zh.OrderSorted)
+		}
 		got := c07RunProbe(c07Probes()[probe])
 		zh.Reset()
 		out := &mc.Outcome{Traces: 1, Nontrivial: si > 0}
@@ -689,7 +734,7 @@ func c07ProbeDevs(tier string) (direct, union int) {
 func init() {
 	Register(&Prop{
 		ID:    "C07",
-		Rule:  "explicit-state BFS over pool states: a state is the canonical content of zog's 7 object pools (all fields of every free object, hidden slice capacity, double-release multiplicity; content-equal multiplicity capped) reached by a history of events (16 calls × {no collect, Collect*, Sanitize*AndCollect}, with the pool answers they received) replayed on cleared pools. Phase B: every probe (13) in every BFS state under LIFO answers plus bounded deviations. Phase C: every probe on pre-filled pools holding one witness of every distinct free-object class seen anywhere in the BFS, each Get answered by any of them (bounded deviations). The probe's full canonical observation (every issue field, aliasing, destination, ctx values) must equal the probe on cleared pools. one execution = one (pool content, probe, pool-answer vector); non-trivial = non-empty pool content; distinct = distinct (probe, observation, answer vector)",
+		Rule:  "explicit-state BFS over pool states: a state is the canonical content of zog's 7 object pools (all fields of every free object, hidden slice capacity, double-release multiplicity; content-equal multiplicity capped) reached by a history of events (20 calls × {no collect, issues handed back through Collect* / Sanitize*AndCollect}, with the pool answers they received) replayed on cleared pools. Phase B: every probe (13) in every BFS state under LIFO answers, plus bounded deviations in states of depth ≤1 (thorough: all). Phase C: every probe on pre-filled pools holding one witness of every distinct free-object class seen anywhere in the BFS, each Get answered by any of them (bounded deviations). The probe's full canonical observation (every issue field, aliasing, destination, ctx values) must equal the probe on cleared pools. one execution = one (pool content, probe, pool-answer vector); non-trivial = non-empty pool content; distinct = distinct (probe, observation, answer vector)",
 		Floor: 20,
 		Bound: func(tier string) string {
 			d, ev, _ := c07Params(tier)
